@@ -66,7 +66,7 @@ func (g *genState) pick(ws map[string]int, allowed func(string) bool) string {
 	return names[len(names)-1]
 }
 
-var kindOrder = []string{"begin", "set", "setreader", "create", "delete", "get", "getreader", "getkeys", "commit", "rollback", "collect", "drain", "reopen", "emptykey", "lateread", "latewrite", "latetx", "phantom"}
+var kindOrder = []string{"begin", "set", "setreader", "create", "delete", "get", "getreader", "getkeys", "commit", "rollback", "collect", "drain", "reopen", "emptykey", "lateread", "latewrite", "latetx", "phantom", "getreader_gc"}
 
 func (g *genState) key() string { return g.p.Keys[g.rng.Intn(len(g.p.Keys))] }
 
@@ -160,6 +160,8 @@ func Generate(rng *rand.Rand, p Profile) []Step {
 			g.emit(Step{Op: "get", Actor: g.actor(), Key: g.key()})
 		case "getreader":
 			g.emit(Step{Op: "getreader", Actor: g.actor(), Key: g.key(), Pieces: g.pieces()})
+		case "getreader_gc":
+			g.emit(Step{Op: "getreader_gc", Actor: g.actor(), Key: g.key(), Pieces: g.pieces()})
 		case "getkeys":
 			g.emit(Step{Op: "getkeys", Actor: g.actor()})
 		case "commit", "rollback":
